@@ -7,6 +7,7 @@ import (
 	"bytes"
 	"context"
 	"encoding/hex"
+	"strconv"
 
 	"github.com/sirupsen/logrus"
 
@@ -300,4 +301,77 @@ func VerifC12_PgProxyRelaySequence() {
 	}
 	verif.Reach("sequence-relayed")
 	verif.Assert(verif.Eq(got, sent), "sequence-relayed-byte-for-byte-in-order")
+}
+
+// VerifC19_PgTypedExtendedResult: a column declared int32, read through the extended protocol. Whatever way the Bind
+// message spells the result formats (none, one code for all columns, one code per column), the owner gets the
+// number in the format asked for that column (text digits / 4 big-endian bytes) and the neighbours untouched.
+func VerifC19_PgTypedExtendedResult() {
+	store := verifPgKeys()
+	env := config.CryptoEnvelopeTypeAcraBlock
+	setting := &config.BasicColumnEncryptionSetting{Name: "secret", UsedClientID: "A", CryptoEnvelope: &env, DataType: "int32"}
+	w := verifNewPgWith(store, "A", setting)
+	v := int32(verif.U32("value"))
+	verif.Assume(verif.Or(verif.And(v >= -9, v <= 9), v == -2147483648, v == 2147483647))
+	text := []byte(strconv.Itoa(int(v)))
+	fwd, censored, err := w.fromClient(verifQuery(verifSplice("insert into t (id, secret, plain) values (1, '%s', 'keep')", text)))
+	if err != nil || censored {
+		verif.Assert(false, "write-forwarded")
+		return
+	}
+	stored, ok := verifStoredHex(fwd)
+	verif.Assert(ok, "protected-value-is-a-hex-bytea-literal")
+	if !ok {
+		return
+	}
+	for _, p := range [][]byte{verifCommandComplete("INSERT 0 1"), verifReady()} {
+		w.fromDB(p)
+	}
+	var rf []uint16
+	binarySecret := true
+	switch verif.Choose("result-formats", 0, 3) {
+	case 0:
+		rf, binarySecret = nil, false
+	case 1:
+		rf = []uint16{1}
+	case 2:
+		rf = []uint16{1, 1, 1}
+	case 3:
+		rf = []uint16{0, 1, 0}
+	}
+	allBinary := len(rf) == 1 || (len(rf) == 3 && rf[0] == 1)
+	if _, _, err := w.fromClient(verifParse("s2", "select id, secret, plain from t")); err != nil {
+		return
+	}
+	if _, _, err := w.fromClient(verifBind("s2", nil, nil, rf)); err != nil {
+		return
+	}
+	w.fromClient(verifExecute())
+	w.fromClient(verifSync())
+	for _, p := range [][]byte{verifFrame('1', nil), verifFrame('2', nil)} {
+		w.fromDB(p)
+	}
+	if _, err := w.fromDB(verifRowDescription("id", "secret", "plain")); err != nil {
+		return
+	}
+	idCol := []byte("1")
+	if allBinary {
+		idCol = []byte{0, 0, 0, 1}
+	}
+	col := verifPgHex(stored)
+	if binarySecret {
+		col = stored
+	}
+	got, err := w.fromDB(verifDataRow(idCol, col, []byte("keep")))
+	verif.Reach("row-processed")
+	verif.Assert(err == nil, "row-no-error")
+	if err != nil {
+		return
+	}
+	want := text
+	if binarySecret {
+		u := uint32(v)
+		want = []byte{byte(u >> 24), byte(u >> 16), byte(u >> 8), byte(u)}
+	}
+	verif.Assert(verif.Eq(got, verifDataRow(idCol, want, []byte("keep"))), "owner-gets-the-number-in-the-requested-format")
 }
